@@ -30,7 +30,8 @@ RULE = ("one case = one target set built from points, rectangles and holes; "
 ASSUMPTIONS = ["core numbers 0..17, chip coordinates 0..255 (others must "
                "raise ValueError)"]
 FLOORS = {"decode_compare": 100, "collapsed_words": 50, "chip_word": 100,
-          "staged_read": 100, "same_dict_again": 100}
+          "staged_read": 100, "same_dict_again": 100,
+          "valid_call_after_rejected_call": 50}
 SHARDS = {"quick": 16, "thorough": 48}
 ANCHORS = [("rig.machine_control.regions", "RegionCoreTree.add_core",
             {"collapse": "self.locally_selected[p] = 0x0",
@@ -63,7 +64,11 @@ def gen(cls, idx, rng, tier):
     if cls == "invalid":
         bad = rng.choice([(256, 3, 1), (3, 256, 1), (-1, 0, 0), (0, -1, 0),
                           (5, 5, 18), (5, 5, -1), (300, 300, 30)])
-        return dict(kind="invalid", bad=bad)
+        # the caller's set also holds good targets (listed first), and the
+        # caller corrects the set and asks again
+        good = [((rng.randrange(256), rng.randrange(256)), rcores(rng, 1, 3))
+                for _ in range(rng.randint(0, 4))]
+        return dict(kind="invalid", bad=bad, good=good)
     if cls == "staged":
         # the tree is filled in several stages and read after each of them
         stages = []
@@ -268,10 +273,25 @@ def run(case, ctx):
         return "ok"
     if case["kind"] == "invalid":
         x, y, p = case["bad"]
+        arg = {tuple(xy): set(cs) for xy, cs in case.get("good", [])}
+        arg.pop((x, y), None)
+        good = {xy: set(cs) for xy, cs in arg.items()}
+        arg[(x, y)] = {p}
         try:
-            out = R.compress_flood_fill_regions({(x, y): {p}})
+            out = R.compress_flood_fill_regions(arg)
         except ValueError:
             ctx.hit("invalid_rejected")
+            # what a rejected call leaves behind: the corrected set, asked
+            # for next, selects exactly itself
+            if good:
+                ctx.hit("valid_call_after_rejected_call")
+                # (corrected = some targets dropped as well, one moved)
+                keys = sorted(good)
+                nxt = {xy: set(good[xy]) for xy in keys[1::2]}
+                nxt[((keys[0][0] + 77) % 256, keys[0][1])] = set(
+                    good[keys[0]])
+                judge_pairs(ctx, list(R.compress_flood_fill_regions(nxt)),
+                            nxt)
             return "ok"
         # accepted silently: then it must not select anything real/extra
         raise_sel = [(xy, c) for r, m in out for xy in chips_of(r)
